@@ -274,6 +274,10 @@ def _run(case, res, tf):
     def now():
         return Fraction(tf())
 
+    def forget():
+        for d_ in (table, raised, visits, last_val, last_time):
+            d_.clear()
+
     def lk(i, pn):
         # the last-produced value is cached on the generator object (which may sit behind two parameters)
         return id(gens[2 * i + pn])
@@ -453,6 +457,10 @@ def _run(case, res, tf):
             tf(T(op[1]), time_type=T)
             st_["fraction"], st_["float"] = op[2] == "fraction", op[2] == "float"
             st_["times_seen"].append(now())
+            # what a generator yields at a time may depend on the time type (TimeSampledFn computes its sample time in it):
+            # values seen under another time type are not compared with what follows
+            forget()
+            st_["retyped"] = True
             res.label("time_type_changed_inside_context")
         elif k == "jumpraw":
             tf(op[1])
@@ -467,8 +475,10 @@ def _run(case, res, tf):
             insts[i].param._state_pop()
             for g_, (lv, lt) in saved.items():
                 last_time[g_] = lt
-                if lt is not None:
+                if lt is not None and lv is not None:
                     last_val[g_] = lv
+                else:
+                    last_val.pop(g_, None)        # (nothing known: the read before the push raised, or there was none)
             read(i, pn)
             st_["ctx_jump"] = True
         elif k == "ctx":
@@ -479,6 +489,10 @@ def _run(case, res, tf):
                     run(ch, depth + 1)
             if tf() != t0 or type(tf()) is not type(t0):
                 res.fail("C19.time_context_restore", f"time was {t0!r} before `with time:` and is {tf()!r} after it")
+            if st_.pop("retyped", False):
+                forget()          # (the time is back, the time type is not - which the statement does not ask for)
+                if depth > 0:
+                    st_["retyped"] = True
             if any(tt != Fraction(t0) for tt in st_["times_seen"][n0:]):
                 st_["ctx_jump"] = True
             st_["times_seen"].append(now())
